@@ -50,6 +50,18 @@ def check(pid, engine, category, text, note, technique, design_ref, thorough=Tru
         CHECKS[pid]["thorough_cmd"] = f"timeout 7000 ./check {pid} --tier thorough"
 
 
+check("C22", "mpisim", "exploration",
+      "Scripts exercising sample lists (W1), SampledKLEnergy MGVI/geoVI with constants/point estimates/mirroring (W2), "
+      "StochasticEnergyAdapter (W3) and full optimize_kl runs incl. output directory on a simulated disk (W4) are executed "
+      "from their first line by N=1..6 thread-ranks behind a simulated communicator, under seeded schedules and "
+      "eager/rendezvous/mixed send semantics, including more ranks than samples and arbitrary ordered partitions with empty "
+      "ranks; every named result component on every rank must be bit-identical to the comm=None run. Sampled, not exhaustive.",
+      "Trusted: SimComm's reading of MPI-3.1/mpi4py; rank isolation inside one interpreter (RNG stack swapped at every "
+      "hand-off); shared POSIX file system semantics of SimFS. Real MPI (the quantifier's wording) is not loadable in this "
+      "sandbox; simulated ranks stand in for it.",
+      "deterministic simulation: real NIFTy code on N simulated MPI ranks, seeded schedule/semantics search, reference = single-process run, bitwise comparison",
+      "DESIGN.md 3.2")
+
 check("C23", "mpisim", "exploration",
       "All 710 ordered partitions of 1..8 summands over 1..4 tasks (empty tasks included) are enumerated; for each, "
       "the real allreduce_sum runs on thread-ranks behind a simulated communicator under seeded schedules and "
